@@ -145,17 +145,31 @@ def mc_must_hold(t, what):
     if t.errors or t.left != 0:
         sys.stdout.write(_strip_vectors(t.tail)[-5000:])
         raise vlib.ToolError(f"the reference specification fails its own theorems or did not finish: {what}")
-    return dict(config=t.cfg, what=what, distinct=t.distinct, generated=t.generated, wall_s=t.wall, complete=True)
+    return dict(config=os.path.basename(t.cfg), module=t.module, what=what, distinct=t.distinct, generated=t.generated, wall_s=t.wall, complete=True)
+
+
+ALPHABETS = {
+    "24": "{0, 1, 2, 3, 13, 14, 17, 18, 19, 27, 29, 39, 40, 41, 43, 44, 45, 53, 55, 65, 66, 195, 252, 255}",
+    "16": "{0, 1, 2, 5, 13, 17, 18, 27, 29, 39, 40, 43, 44, 53, 65, 252}",
+}
 
 
 def start_mc_values(cfg, seed, wd, emit=True, workers=None):
-    env = dict(CODEC_TIER=cfg["tier_env"], CODEC_SEED=str(seed), CODEC_EMIT="1" if emit else "0")
-    return Tlc("MC_ValueCodec.tla", "MC_ValueCodec.cfg", env, workers or cfg["workers"], wd, "values")
+    """The parameters are CONSTANTS of the model: the .cfg is written per run (same text as spec/MC_ValueCodec.cfg)."""
+    path = os.path.join(wd, "MC_ValueCodec.cfg")
+    with open(path, "w") as f:
+        f.write("SPECIFICATION Spec\nCONSTANTS\n  Thorough = %s\n  Seed0 = %d\n  Emit = %s\n  Part = \"all\"\n"
+                "INVARIANT Theorems\nCHECK_DEADLOCK FALSE\n"
+                % ("TRUE" if cfg["tier_env"] == "thorough" else "FALSE", abs(int(seed)) % 1000000, "TRUE" if emit else "FALSE"))
+    return Tlc("MC_ValueCodec.tla", path, {}, workers or cfg["workers"], wd, "values")
 
 
 def start_mc_bytes(cfg, wd, workers=None):
-    env = dict(CODEC_MAXLEN=str(cfg["bytes_len"]), CODEC_ALPHA=cfg["alpha"])
-    return Tlc("MC_ValueCodecBytes.tla", "MC_ValueCodecBytes.cfg", env, workers or cfg["workers"], wd, "bytes")
+    path = os.path.join(wd, "MC_ValueCodecBytes.cfg")
+    with open(path, "w") as f:
+        f.write("SPECIFICATION Spec\nCONSTANTS\n  MaxLen = %d\n  Alphabet = %s\nINVARIANT Theorems\nCHECK_DEADLOCK FALSE\n"
+                % (cfg["bytes_len"], ALPHABETS[cfg["alpha"]]))
+    return Tlc("MC_ValueCodecBytes.tla", path, {}, workers or cfg["workers"], wd, "bytes")
 
 
 def extract_vectors(tlc_out, path):
